@@ -278,7 +278,13 @@ def des_cases(t: pydsdl.CompositeType, encodings: typing.Sequence[bytes], thorou
     encs = list(dict.fromkeys(encodings))
     for e in encs:
         add(e)
-    for n in range(0, mb + 3):  # (vi)
+    def spread(n: int) -> typing.List[int]:
+        """every position for ordinary types; for the few very large ones both ends densely and a stride in between"""
+        if n <= 400:
+            return list(range(n))
+        return sorted(set(range(0, 48)) | set(range(n - 48, n)) | set(range(0, n, max(1, n // 24))))
+
+    for n in spread(mb + 3):  # (vi)
         add(b"\xff" * n)
         add(bytes([0xAA if i % 2 == 0 else 0x55 for i in range(n)]))
         add(b"\x00" * n)
@@ -288,7 +294,7 @@ def des_cases(t: pydsdl.CompositeType, encodings: typing.Sequence[bytes], thorou
                 add(x.to_bytes(n, "little"))
     step = 1 if thorough else 3
     for e in encs[:: 1 if thorough else 2]:
-        for cut in range(0, len(e)):  # (ii)
+        for cut in spread(len(e)):  # (ii)
             add(e[:cut])
         for tail in (b"\x00", b"\xff", b"\xa5\xff"):  # (iii)
             add(e + tail)
